@@ -405,7 +405,9 @@ class Expander:
                         if isinstance(v, (TupleV, ListV)):
                             base.items.extend(v.items)
                         else:
-                            raise Unsupported("extend with a non-literal sequence")
+                            # the elements of a sequence that is not literal in the code: one opaque marker (never equal to
+                            # anything) - what the list holds in which order is the layout engine's question (sa/seq.py)
+                            base.items.append(R.sym(f"<*{ast.unparse(node.args[0])[:60]}@{node.lineno}>"))
                     else:
                         pos = node.args[0]
                         if isinstance(pos, ast.Constant):
